@@ -41,7 +41,7 @@ func c17StoreWalks(rep *evid.Reporter, maxN int) (walks, fetches int) {
 	for n := 0; n <= maxN; n++ {
 		sizes = append(sizes, n)
 	}
-	sizes = append(sizes, 17) // more than the default page size of 15
+	sizes = append(sizes, 17)  // more than the default page size of 15
 	sizes = append(sizes, 103) // more than the largest page the v2 API serves (100): only walked through the HTTP layer
 	for _, n := range sizes {
 		st := &c04State{db: pgmini.New(), logs: map[string][]*ledger.ChainedLog{}, bad: map[string]bool{}}
